@@ -23,6 +23,8 @@ type c11Gen struct {
 	noHuge                bool // no packages beyond 1 MiB (C12 keeps inputs small)
 	allowTermsAfterBlock  bool // inside deferred (While) blocks
 	allowRootScope        bool // Scope(\) directives
+	allowShadowing        bool // a method named like a method of an enclosing scope
+	methodsIn             map[string][]string // scope path -> names of the methods declared there
 	allowSplitIndexField  bool // an IndexField outside the Scope(\) that declares its registers
 }
 
@@ -138,6 +140,38 @@ func (g *c11Gen) body(abs string, depth int) []amlObj {
 			o.Argc = rapid.IntRange(0, 7).Draw(g.t, "argc")
 			o.Flags = uint8(rapid.IntRange(0, 31).Draw(g.t, "mflags")) << 3
 			o.W = g.width()
+			if g.methodsIn == nil {
+				g.methodsIn = map[string][]string{}
+			}
+			if g.allowShadowing && depth >= 1 && rapid.IntRange(0, 4).Draw(g.t, "shadow") == 0 {
+				// the name of a method of an enclosing scope: a simple name used from here
+				// inwards designates this method, not the outer one
+				var outer []string
+				for sc := c11ScopeOfAbs(abs + ".XXXX"); ; sc = c11ScopeOfAbs(sc) {
+					if sc != abs {
+						outer = append(outer, g.methodsIn[sc]...)
+					}
+					if sc == "\\" {
+						break
+					}
+				}
+				taken := map[string]bool{}
+				for _, n := range g.methodsIn[abs] {
+					taken[n] = true
+				}
+				var cand []string
+				for _, n := range outer {
+					if !taken[n] {
+						cand = append(cand, n)
+					}
+				}
+				if len(cand) > 0 {
+					nm = cand[rapid.IntRange(0, len(cand)-1).Draw(g.t, "shadowof")]
+					o.Name, o.Abs = amlSeg(nm), c11JoinPath(abs, nm)
+					g.stats.shadowed++
+				}
+			}
+			g.methodsIn[abs] = append(g.methodsIn[abs], nm)
 		case "device", "thermal":
 			o.W = g.width()
 			o.Body = g.body(o.Abs, depth+1)
@@ -444,6 +478,20 @@ func (g *c11Gen) fillBodies(objs []amlObj, table int, syms []c11Sym) {
 					datas = append(datas, s)
 				}
 			}
+			// of several visible methods with one name the innermost is the one a simple name finds
+			nearest := map[string]int{}
+			for i, ms := range methods {
+				if j, ok := nearest[ms.name]; !ok || len(ms.scope) > len(methods[j].scope) {
+					nearest[ms.name] = i
+				}
+			}
+			var uniq []c11Sym
+			for i, ms := range methods {
+				if nearest[ms.name] == i {
+					uniq = append(uniq, ms)
+				}
+			}
+			methods = uniq
 			o.Stmts = g.stmts(o, methods, datas, 0, false)
 		}
 		g.fillBodies(o.Body, table, syms)
@@ -790,6 +838,7 @@ func TestVerifC11(t *testing.T) {
 			allowEmptyIf:          !vlib.OpenFinding("F-C11c"),
 			allowTermsAfterBlock:  !vlib.OpenFinding("F-C11e"),
 			allowRootScope:        true,
+			allowShadowing:        true,
 			allowSplitIndexField:  !vlib.OpenFinding("F-C11f"),
 		}
 		c := g.program()
@@ -813,6 +862,7 @@ func TestVerifC11(t *testing.T) {
 		add(g.stats.methodDecls > 0, "object-declared-in-method-body")
 		add(g.stats.rootScopes > 0, "scope-directive-naming-the-root")
 		add(g.stats.pkgRefs > 0, "package-element-naming-an-object")
+		add(g.stats.shadowed > 0, "method-shadowing-a-method-of-an-enclosing-scope")
 		labels = append(labels, fmt.Sprintf("tables=%d", g.stats.tables))
 		st.Case(c, (g.stats.scopeDirectives > 0 || g.stats.relocated > 0) && g.stats.callsWithArgs > 0, labels...)
 		if fail != nil && strings.HasPrefix(fail.Msg, "VERIF-HARNESS") {
